@@ -21,4 +21,9 @@ for f in sorted((vlib.VERIF / "ocaml").glob("run_*.ml")):
     except Exception as e:
         print("runner", f.stem, "failed:", str(e)[:500])
 print("setup done in %.0fs" % (time.time() - t))
-sys.exit(0 if ok else 1)
+if not ok:
+    # a file that does not compile fails only the properties whose cone contains it (each check
+    # rebuilds and verifies its own cone); setup itself is not the place to fail them all
+    import re
+    print("WARNING: some Coq files did not compile:", sorted(set(re.findall(r'File "\./(theories/[^"]+)"', out)))[:20])
+sys.exit(0)
